@@ -196,3 +196,73 @@ func selfTest(root, onlyProp string, verbose bool) (ran, bad int, lines []string
 	}
 	return
 }
+
+// tryPatch evaluates one patch through the overlay and prints the failing obligations it adds.
+func tryPatch(root, patch, props string) int {
+	base, err := ir.Load(ir.Options{Dir: *flagRepo})
+	if err != nil {
+		fmt.Println("load:", err)
+		return 2
+	}
+	findings, _ := eng.LoadFindings(filepath.Join(root, "known_findings.json"))
+	ov, err := patchedFiles(*flagRepo, patch)
+	if err != nil {
+		fmt.Println(err)
+		return 2
+	}
+	mp, err := base.Mutate(ov)
+	if err != nil {
+		fmt.Println("patched tree does not type-check:", err)
+		return 2
+	}
+	ids := rules.IDs()
+	if props != "" && props != "all" {
+		ids = strings.Split(props, ",")
+	}
+	n := 0
+	for _, pid := range ids {
+		pr := rules.Get(pid)
+		if pr == nil {
+			continue
+		}
+		run := func(p *ir.Program) map[string]*eng.Obligation {
+			eng.ResetLockCache()
+			rules.ResetCaches()
+			c := eng.NewCtx(p, pid, "quick")
+			func() {
+				defer func() {
+					if r := recover(); r != nil {
+						c.Rule("PANIC", "engine")
+						c.Undecided("analyser panic", "-", fmt.Sprint(r))
+					}
+				}()
+				pr.Run(c)
+			}()
+			c.ApplyFindings(findings)
+			m := map[string]*eng.Obligation{}
+			for _, o := range c.Failing() {
+				m[o.Key()] = o
+			}
+			return m
+		}
+		b := run(base)
+		a := run(mp)
+		var keys []string
+		for k := range a {
+			if _, ok := b[k]; !ok {
+				keys = append(keys, k)
+			}
+		}
+		sort.Strings(keys)
+		for _, k := range keys {
+			o := a[k]
+			n++
+			fmt.Printf("%s %s [%s] %s @ %s :: %s\n", pid, o.Rule, o.Status, o.Construct, o.Pos, oneLine(o.Detail))
+		}
+	}
+	fmt.Printf("trypatch: %d new failing obligation(s)\n", n)
+	if n > 0 {
+		return 1
+	}
+	return 0
+}
